@@ -360,6 +360,12 @@ pub mod verif {
         Ok(SyncCodec.decode(src)?.map(Into::into))
     }
 
+    /// The crate's frame decoder at the end of the stream (what `FramedRead` calls once the
+    /// reader is exhausted).
+    pub fn decode_eof(src: &mut BytesMut) -> anyhow::Result<Option<Frame>> {
+        Ok(SyncCodec.decode_eof(src)?.map(Into::into))
+    }
+
     /// The crate's initiator loop.
     pub async fn run_alice<R: AsyncRead + Unpin, W: AsyncWrite + Unpin>(
         writer: &mut W,
